@@ -293,6 +293,10 @@ def _name_counts(fn: ast.AST) -> Tuple[Dict[str, int], Dict[str, int], set]:
             banned.add(x.arg)
         elif isinstance(x, ast.AugAssign) and isinstance(x.target, ast.Name):
             loads[x.target.id] = loads.get(x.target.id, 0) + 1
+        elif x is not fn and isinstance(x, (ast.FunctionDef, ast.AsyncFunctionDef, ast.ClassDef)):
+            stores[x.name] = stores.get(x.name, 0) + 1  # `def name` / `class name` bind the name as well
+        elif isinstance(x, ast.ExceptHandler) and x.name:
+            stores[x.name] = stores.get(x.name, 0) + 1
     # names used inside nested functions / lambdas are not substituted
     for x in ast.walk(fn):
         if x is not fn and isinstance(x, (ast.FunctionDef, ast.AsyncFunctionDef, ast.Lambda)):
@@ -900,6 +904,14 @@ def propagate_param_copies(tree: ast.Module) -> int:
                 elif isinstance(x, (ast.Global, ast.Nonlocal)):
                     for nm in x.names:
                         stores[nm] = stores.get(nm, 0) + 2
+                elif x is not fn and isinstance(x, (ast.FunctionDef, ast.AsyncFunctionDef, ast.ClassDef)):
+                    stores[x.name] = stores.get(x.name, 0) + 1  # `def name` / `class name` bind the name as well
+                elif isinstance(x, ast.ExceptHandler) and x.name:
+                    stores[x.name] = stores.get(x.name, 0) + 1
+                elif isinstance(x, (ast.Import, ast.ImportFrom)):
+                    for al in x.names:
+                        nm = (al.asname or al.name).split(".")[0]
+                        stores[nm] = stores.get(nm, 0) + 1
             found = None
             for parent_ in ast.walk(fn):
                 for fld in ("body", "orelse", "finalbody"):
